@@ -128,7 +128,7 @@ type history []string // N = new both, S = start both, P = wait for peering, X =
 func TestC20(t *testing.T) {
 	env := kit.GetEnv()
 	rep := kit.NewReport("C20", env)
-	rep.Rule = "configurations: universe {'', 'u'} x secret {'', 's'} x lite x stub x services {0,1} x friends {0,1} x listeners {1,2 loopback ports} x state storage {memory, json file} x API listener {none, free loopback port} (quick: a pairwise-covering subset of 24, thorough: all 512) for a pair of real relay-only instances (second dials the first); histories: every well-formed word over {New, Start, Peer, Stop (sequential), Stop (both concurrently)} of up to 3 cycles from a fixed family (start-stop, start-peer-stop, construct-only, stop-without-start, double stop, and their repetitions) in one process; observed: panics/errors of New/Start, link on both sides, return value of Stop, goroutine count back to the pre-New baseline after every cycle; non-trivial = every case (each has >= 1 full cycle); distinct = distinct (configuration, history)"
+	rep.Rule = "configurations: universe {'', 'u'} x secret {'', 's'} x lite x stub x services {0,1} x friends {0,1} x listeners {1,2 loopback ports} x state storage {memory, json file} x API listener {none, free loopback port} (quick: a pairwise-covering subset of 24, thorough: all 512) for a pair of real relay-only instances (second dials the first); plus, for every sixth configuration (thorough: all), three routers on one host of which one has two connect URLs and must peer with both; histories: every well-formed word over {New, Start, Peer, Stop (sequential), Stop (both concurrently)} of up to 3 cycles from a fixed family (start-stop, start-peer-stop, construct-only, stop-without-start, double stop, and their repetitions) in one process; observed: panics/errors of New/Start, link on both sides, return value of Stop, goroutine count back to the pre-New baseline after every cycle; non-trivial = every case (each has >= 1 full cycle); distinct = distinct (configuration, history)"
 	rep.Assumptions = []string{
 		"this check runs on real loopback TCP in real time: goroutine schedules are NOT controlled; the property is quantified over configurations and histories only, which are enumerated exhaustively",
 		"waiting uses monotone conditions polled under a 30 s ceiling; no short wall-clock oracle is used",
@@ -321,6 +321,85 @@ func TestC20(t *testing.T) {
 				rep.Sample(map[string]any{"config": c.String(), "history": []string(h), "clean": ok})
 			}
 			_ = os.Remove
+		}
+	}
+	// three routers on one host: A and C listen, B has two connect URLs and must
+	// peer with both (every pair of relay-only routers can peer, also when one of
+	// them already has a link over the same host).
+	for ci, c := range cfgs {
+		if ci%6 != 0 && !env.Thorough() {
+			continue
+		}
+		caseNo++
+		if !env.Mine(caseNo) {
+			continue
+		}
+		if !(c.secret == "" || c.universe != "") {
+			continue
+		}
+		evals++
+		nontrivial++
+		desc := fmt.Sprintf("%s three routers: A and C listen, B connects to both", c)
+		base := runtime.NumGoroutine()
+		pa, pc := freePort(), freePort()
+		stores := []config.Store{
+			mkStore(c, pool[0], []int{pa}, 0, dir, fmt.Sprintf("ta-%d", caseNo)),
+			mkStore(c, pool[2], []int{pc}, 0, dir, fmt.Sprintf("tc-%d", caseNo)),
+			mkStore(c, pool[1], []int{freePort()}, pa, dir, fmt.Sprintf("tb-%d", caseNo)),
+		}
+		stores[2].Router.Connect = append(stores[2].Router.Connect, fmt.Sprintf("tcp://127.0.0.1:%d", pc))
+		var insts []*mycoria.Instance
+		ok := true
+		for _, st := range stores {
+			cfg, err := st.Parse()
+			if err != nil {
+				rep.Violate("triple/config-rejected", err.Error()+" — "+desc, desc)
+				ok = false
+				break
+			}
+			var inst *mycoria.Instance
+			pan, pv := kit.Try(func() { inst, err = mycoria.New("verif", cfg) })
+			if pan || err != nil {
+				rep.Violate("triple/new-fails", fmt.Sprintf("constructing a relay-only router failed (%v / %v) — %s", pv, err, desc), desc)
+				ok = false
+				break
+			}
+			insts = append(insts, inst)
+		}
+		if ok {
+			// listeners first, so that both of B's connect URLs can be served at once.
+			for _, inst := range insts {
+				if err := inst.Start(); err != nil {
+					rep.Violate("triple/start-fails", err.Error()+" — "+desc, desc)
+					ok = false
+				}
+			}
+		}
+		if ok {
+			b := insts[2]
+			// the connect manager retries a missing configured peer every minute once it has a link.
+			if !waitFor(func() bool {
+				return b.Peering().LinkCnt() >= 2 && insts[0].Peering().LinkCnt() >= 1 && insts[1].Peering().LinkCnt() >= 1
+			}, 150*time.Second) {
+				rep.Violate("triple/no-peering", fmt.Sprintf("B did not peer with both configured routers within the ceiling (links A=%d C=%d B=%d) — %s", insts[0].Peering().LinkCnt(), insts[1].Peering().LinkCnt(), b.Peering().LinkCnt(), desc), map[string]any{"config": c.String()})
+				ok = false
+			}
+		}
+		for _, inst := range insts {
+			var stopped bool
+			pan, pv := kit.Try(func() { stopped = inst.Stop() })
+			if pan || !stopped {
+				rep.Violate("triple/stop", fmt.Sprintf("Stop failed (panic=%v stopped=%v) — %s", pv, stopped, desc), desc)
+				ok = false
+			}
+		}
+		if ok && !waitFor(func() bool { runtime.Gosched(); return runtime.NumGoroutine() <= base }, 15*time.Second) {
+			rep.Violate("triple/goroutines-left-running", fmt.Sprintf("after Stop %d goroutines run, baseline before New was %d: %s — %s", runtime.NumGoroutine(), base, goroutineSummary(), desc), desc)
+		}
+		if ok {
+			rep.Outcome("clean-lifecycle three-routers peering-expected=true")
+		} else {
+			rep.Outcome("failed-lifecycle")
 		}
 	}
 	rep.Add(evals, nontrivial, 0, 0)
